@@ -413,6 +413,25 @@ func (vc *VC) evalKnown(key string, callee *types.Func, recv Value, call *ast.Ca
 			return []Value{Term{fmt.Sprintf("(ite (< %s %s) (- 1) (ite (> %s %s) 1 0))", a.S, b.S, a.S, b.S), SInt, types.Typ[types.Int]}}, true
 		}
 	case "slices.Collect":
+		// slices.Collect(maps.Values(m)): the values of m, one per key, in an arbitrary order:
+		// position i holds m[keyAt(i)] for an injective keyAt onto the keys of m
+		if inner, ok := ast.Unparen(call.Args[0]).(*ast.CallExpr); ok {
+			if fn := vc.calleeOf(inner); fn != nil && fn.Pkg() != nil && fn.Pkg().Path() == "maps" && fn.Name() == "Values" && len(inner.Args) == 1 {
+				m := vc.term(vc.evalExpr(inner.Args[0], st), pos)
+				rt := vc.typeOf(call)
+				if si := vc.ss.info[m.Sort]; si != nil && si.Kind == "map" && rt != nil {
+					r := vc.freshConst("vals", rt)
+					rs := r.Sort
+					ks := vc.ss.sortOf(si.Key)
+					vc.assume(tBool(true), Term{fmt.Sprintf("(and (= (len.%s %s) (card.%s %s)) (= (isnil.%s %s) (= (card.%s %s) 0)))", rs, r.S, m.Sort, m.S, rs, r.S, m.Sort, m.S), SBool, nil})
+					keyAt, idx := "keyAt."+r.S, "idx."+r.S
+					vc.decls = append(vc.decls, fmt.Sprintf("(declare-fun %s (Int) %s)", keyAt, ks), fmt.Sprintf("(declare-fun %s (%s) Int)", idx, ks))
+					vc.assume(tBool(true), Term{fmt.Sprintf("(forall ((i! Int)) (! (=> (and (<= 0 i!) (< i! (len.%s %s))) (and (select (has.%s %s) (%s i!)) (= (%s (%s i!)) i!) (= (select (arr.%s %s) i!) (select (get.%s %s) (%s i!))))) :pattern ((select (arr.%s %s) i!)) :pattern ((%s i!))))", rs, r.S, m.Sort, m.S, keyAt, idx, keyAt, rs, r.S, m.Sort, m.S, keyAt, rs, r.S, keyAt), SBool, nil})
+					vc.assume(tBool(true), Term{fmt.Sprintf("(forall ((k! %s)) (! (=> (select (has.%s %s) k!) (and (<= 0 (%s k!)) (< (%s k!) (len.%s %s)) (= (%s (%s k!)) k!))) :pattern ((select (has.%s %s) k!))))", ks, m.Sort, m.S, idx, idx, rs, r.S, keyAt, idx, m.Sort, m.S), SBool, nil})
+					return []Value{r}, true
+				}
+			}
+		}
 		// slices.Collect(maps.Keys(m)): the keys of m, each exactly once, in an arbitrary order
 		if inner, ok := ast.Unparen(call.Args[0]).(*ast.CallExpr); ok {
 			if fn := vc.calleeOf(inner); fn != nil && fn.Pkg() != nil && fn.Pkg().Path() == "maps" && fn.Name() == "Keys" && len(inner.Args) == 1 {
@@ -430,6 +449,57 @@ func (vc *VC) evalKnown(key string, callee *types.Func, recv Value, call *ast.Ca
 					vc.assume(tBool(true), Term{fmt.Sprintf("(forall ((i! Int) (j! Int)) (! (=> (and (<= 0 i!) (< i! j!) (< j! (len.%s %s))) (not (= (select (arr.%s %s) i!) (select (arr.%s %s) j!)))) :pattern ((select (arr.%s %s) i!) (select (arr.%s %s) j!))))", rs, r.S, rs, r.S, rs, r.S, rs, r.S, rs, r.S), SBool, nil})
 					return []Value{r}, true
 				}
+			}
+		}
+	case "strings.Compare":
+		// -1 / 0 / +1 by the byte-wise order gs.lt
+		a := vc.term(vc.evalExpr(call.Args[0], st), pos)
+		b := vc.term(vc.evalExpr(call.Args[1], st), pos)
+		if a.Sort == SStr && b.Sort == SStr {
+			vc.ss.declare(&sortInfo{Name: "str$lt", Kind: "const", Decl: strLtDecl})
+			return []Value{Term{fmt.Sprintf("(ite (= %s %s) 0 (ite (gs.lt %s %s) (- 1) 1))", a.S, b.S, a.S, b.S), SInt, types.Typ[types.Int]}}, true
+		}
+	case "slices.SortFunc", "slices.SortStableFunc":
+		// x is permuted in place so that cmp(x[i], x[j]) <= 0 for i < j. The
+		// comparator is a closure: it is inlined once, on the elements at an
+		// *arbitrary* pair of positions $si < $sj of the sorted slice (two fresh
+		// constants), so whatever is proved about that pair holds for every pair.
+		if len(call.Args) == 2 {
+			cl, isCl := vc.evalExprNoSafety(call.Args[1], st).(*Closure)
+			sl := vc.term(vc.evalExpr(call.Args[0], st), pos)
+			si := vc.ss.info[sl.Sort]
+			if isCl && si != nil && si.Kind == "slice" {
+				nv := vc.freshOfSort("sorted", sl.Sort, sl.T)
+				S := string(sl.Sort)
+				vc.assume(st.pc, Term{fmt.Sprintf("(and (= (len.%s %s) (len.%s %s)) (= (isnil.%s %s) (isnil.%s %s)))", S, nv.S, S, sl.S, S, nv.S, S, sl.S), SBool, nil})
+				// a permutation: position k of the result holds the element that was at
+				// perm(k); inv is its inverse (so perm is a bijection of the positions)
+				perm, inv := "perm."+nv.S, "inv."+nv.S
+				vc.decls = append(vc.decls, fmt.Sprintf("(declare-fun %s (Int) Int)", perm), fmt.Sprintf("(declare-fun %s (Int) Int)", inv))
+				vc.assume(st.pc, Term{fmt.Sprintf("(forall ((k! Int)) (! (=> (and (<= 0 k!) (< k! (len.%s %s))) (and (<= 0 (%s k!)) (< (%s k!) (len.%s %s)) (= (%s (%s k!)) k!) (= (select (arr.%s %s) k!) (select (arr.%s %s) (%s k!))))) :pattern ((select (arr.%s %s) k!)) :pattern ((%s k!))))", S, nv.S, perm, perm, S, nv.S, inv, perm, S, nv.S, S, sl.S, perm, S, nv.S, perm), SBool, nil})
+				vc.assume(st.pc, Term{fmt.Sprintf("(forall ((k! Int)) (! (=> (and (<= 0 k!) (< k! (len.%s %s))) (and (<= 0 (%s k!)) (< (%s k!) (len.%s %s)) (= (%s (%s k!)) k!))) :pattern ((%s k!))))", S, nv.S, inv, inv, S, nv.S, perm, inv, inv), SBool, nil})
+				vc.storeSliceArg(call.Args[0], nv, st)
+				gi := vc.freshOfSort("si", SInt, types.Typ[types.Int])
+				gj := vc.freshOfSort("sj", SInt, types.Typ[types.Int])
+				vc.assume(st.pc, Term{fmt.Sprintf("(and (<= 0 %s) (< %s %s) (< %s (len.%s %s)))", gi.S, gi.S, gj.S, gj.S, S, nv.S), SBool, nil})
+				et := si.Elem
+				ei := Term{fmt.Sprintf("(select (arr.%s %s) %s)", S, nv.S, gi.S), vc.ss.sortOf(et), et}
+				ej := Term{fmt.Sprintf("(select (arr.%s %s) %s)", S, nv.S, gj.S), vc.ss.sortOf(et), et}
+				save := vc.safety
+				vc.safety = false
+				rs := vc.inlineClosure(cl, []Value{ei, ej}, call, st)
+				vc.safety = save
+				if len(rs) == 1 {
+					if r, ok := rs[0].(Term); ok && r.Sort == SInt {
+						vc.assume(st.pc, Term{fmt.Sprintf("(<= %s 0)", r.S), SBool, nil})
+					}
+				}
+				fr := vc.cur()
+				if fr.ghosts == nil {
+					fr.ghosts = map[string]Value{}
+				}
+				fr.ghosts["$si"], fr.ghosts["$sj"] = gi, gj
+				return []Value{}, true
 			}
 		}
 	case "slices.Clone":
